@@ -154,6 +154,13 @@ def render(spec):
                     '<{p}lines count="3" material="m"><{p}input semantic="VERTEX" source="#{id}-v" offset="0"/><{p}p>0 1 2 2 1 0</{p}p></{p}lines>')]
             if sum(id_.encode()) % 2:
                 two.reverse()
+            # a primitive without items (blank <p>), of a kind that depends on the id: what a blank index list parses to is per primitive
+            h = sum(id_.encode()) % 4
+            if h:
+                two.append(('<{p}triangles count="0"><{p}input semantic="VERTEX" source="#{id}-v" offset="0"/><{p}p></{p}p></{p}triangles>',
+                            '<{p}lines count="0"><{p}input semantic="VERTEX" source="#{id}-v" offset="0"/><{p}p> </{p}p></{p}lines>',
+                            '<{p}polylist count="0"><{p}input semantic="VERTEX" source="#{id}-v" offset="0"/><{p}vcount></{p}vcount><{p}p></{p}p></{p}polylist>'
+                            )[h - 1].format(p=pf, id=id_))
             out.append(tmpl.format(p=pf, id=id_, perm=PERMS[sum(id_.encode()) % 6], extra2=''.join(two)))
         out.append('</%s>' % LIBTAG[lib][0])
     out.append('<scene/></COLLADA>')
